@@ -94,16 +94,16 @@ ADDED = {
  "C06": "Also: embedded error pointers are non-nil at every store; three reviewed entries carry a machine-checked premise. Round 4: reviewed entries that name a condition at the construct have it re-established on every run.",
  "C07": "Also: no error of a parser function is dropped, and the parser position is not used after a failed advance.",
  "C08": "Also: the format guard compares the tree of the bytes read from the file and covers every token field the interpreter reads. Round 3: no computed format string in the printer and the format tool.",
- "C09": "Also: a signal announces an update its waiters read and follows it on every path; polling exits read their quantities in one critical section; no re-entrance into a held pool lock.",
+ "C09": "Also: a signal announces an update its waiters read and follows it on every path; polling exits read their quantities in one critical section; no re-entrance into a held pool lock. Round 4: no stop request is pending (workerKill known zero) where a worker is started.",
  "C10": "Also: priority heap and counter map change together; priorities are int end to end. Round 3: the fail-on-first-error setting is written only by its setter and the constructor. Round 4: the setter stores on every path.",
  "C11": "Also: identifier generators are atomic; the sink action binds event on a parent-less scope. Round 4: the sink body is evaluated under the action's own thread-id parameter.",
  "C12": "Also: thread ids come from one atomic step. Round 3: the id counter of a live pool is never set back; the release-function idiom (acquire returns the matching release closure, deferred at the call) is decided path by path.",
- "C13": "Also: atomically updated package state is never accessed plainly and never decides a branch of a parse. Round 3: nothing on the parse path writes into the shared runtime provider; a pooled object is released at most once per path. Round 4: configuring methods of text/template count as writes to the shared templates.",
+ "C13": "Also: atomically updated package state is never accessed plainly and never decides a branch of a parse. Round 3: nothing on the parse path writes into the shared runtime provider; a pooled object is released at most once per path. Round 4: configuring methods of text/template count as writes to the shared templates; an object stored into a shared container under a lock is not written after the lock is given up.",
  "C14": "Also: the scan position shrinks on every back edge, iterations of the scan loop do not communicate, the lexer hands raw strings over as substrings of the input.",
  "C15": "Also: break-on-error is gated by the control-signal classifier, StopThreads wakes every suspended thread, the wait predicate is not reset after publication, no re-entrance into the debugger lock. Round 3: a resumed thread's node is re-examined for breakpoints on every path; Continue wakes every thread it finds suspended; guarded-by covers every table of the debugger. Round 4: no front-end lock is held across code that can suspend.",
  "C16": "Also: no command handler reaches a function acquiring the debugger lock it holds; results are JSON-encodable by type or sanitised origin and contain no live reference to a debugger table. Round 3: debugger tables are written only under the exclusive lock (all map/slice fields); methods on Scope.Parent() results only where tested against nil. Round 4: a table entry is dereferenced only where its lookup found it.",
  "C17": "Round 3: rebuilt around a containment engine with summaries — the test may be written out next to the file call, or sit in a predicate (bool, error), a check returning only an error, or a confiner returning the path; either spelling of the first-element test (HasPrefix + equality, or Split(rel, sep)[0]).",
- "C18": "Also: the newline test covers every rune a scan loop examines, the parse path never computes with PrefixNewlines, the separation test sees the statement parsed last. Round 3: the bulk form (strings.Count / LastIndex over input[start:pos]) is decided; no iteration of a scan loop bypasses the newline test.",
+ "C18": "Also: the newline test covers every rune a scan loop examines, the parse path never computes with PrefixNewlines, the separation test sees the statement parsed last. Round 3: the bulk form (strings.Count / LastIndex over input[start:pos]) is decided; no iteration of a scan loop bypasses the newline test. Round 4: a line counter is advanced only where the rune comparisons on the way establish a newline.",
  "C19": "Also: every use of reflect in the adapter is under the recover; the trailing error is delivered for every arity. Round 3: plugin code runs under the bridge's recover; arity lower bounds from NumIn() consult IsVariadic(); a named recovering function is accepted. Round 4: pooled buffers do not escape into results.",
 }
 
